@@ -1,4 +1,5 @@
 import S2T.Lemmas.Iface
+import S2T.Props.C04_Copies
 import S2T.Gen.Iface
 import S2T.Props.C04_Src
 import S2T.Props.C04_Streams
